@@ -24,21 +24,67 @@ Proof.
   rewrite sl_ok by lia. cbn [bind]. rewrite idx_ok by (cbn [len]; lia). cbn [bind].
   destruct (_ && _); [right; reflexivity|].
   destruct (_ && _); [right; reflexivity|].
+  rewrite idx_ok by (cbn [len]; unfold l in *; lia). cbn [bind].
+  destruct (_ && _); [right; reflexivity|].
   apply IH; [exact W | lia | lia].
+Qed.
+
+(* the decoded value carries no range into the view (everything is copied) *)
+Definition prefixes_norange (st : ndp_st) : Prop := ranges (VL (st_prefixes st)) = [].
+
+Lemma ranges_VL_app a b : ranges (VL (a ++ b)) = (ranges (VL a) ++ ranges (VL b))%list.
+Proof. induction a as [|x r IH]; cbn [app ranges]; [reflexivity|]. cbn [ranges] in IH. rewrite IH, app_assoc. reflexivity. Qed.
+
+Lemma ndp_apply_norange x st st' : prefixes_norange st -> ndp_apply x st = Some st' -> prefixes_norange st'.
+Proof.
+  unfold ndp_apply, prefixes_norange. intros P H.
+  repeat match type of H with
+  | (if ?c then _ else _) = _ => destruct c
+  | match ?c with _ => _ end = _ => destruct c
+  end; try discriminate; injection H as <-; cbn [st_prefixes]; try exact P.
+  - destruct (ob x 0 =? 1); exact P.
+  - rewrite ranges_VL_app, P. reflexivity.
+Qed.
+
+Lemma ndp_decode_norange fuel : forall b st st', prefixes_norange st -> ndp_decode fuel b st = Some st' -> prefixes_norange st'.
+Proof.
+  induction fuel as [|f IH]; intros b st st' P H; [discriminate|]. cbn [ndp_decode] in H.
+  destruct b as [|b0 [|l8 r]]; [injection H as <-; exact P|discriminate|].
+  destruct (Nat.eqb _ 0); [discriminate|]. destruct (Nat.ltb _ _); [discriminate|].
+  destruct (ndp_apply _ st) as [st1|] eqn:E; [|discriminate].
+  eapply IH; [|exact H]. eapply ndp_apply_norange; eassumption.
+Qed.
+
+Lemma ranges_map_vx l : ranges (VL (map vx l)) = [].
+Proof. induction l as [|a r IH]; [reflexivity|]. cbn [map ranges] in *. rewrite IH. destruct a; reflexivity. Qed.
+
+Lemma ndp_show_norange st : prefixes_norange st -> ranges (ndp_show st) = [].
+Proof.
+  unfold prefixes_norange, ndp_show. intros P. destruct (st_route st) as [[[pl prf] lt] pfx].
+  cbn [ranges]. cbn [ranges] in P. rewrite P.
+  pose proof (ranges_map_vx (st_servers st)) as R1. pose proof (ranges_map_vx (st_domains st)) as R2.
+  cbn [ranges] in R1, R2. rewrite R1, R2.
+  destruct (st_slla st), (st_tlla st), pfx; reflexivity.
+Qed.
+
+Lemma ndp_value_norange b : ranges (ndp_value b) = [].
+Proof.
+  unfold ndp_value. destruct (ndp_decode _ b st0) as [st|] eqn:E; [|reflexivity].
+  apply ndp_show_norange. eapply ndp_decode_norange; [|exact E]. reflexivity.
 Qed.
 
 Lemma ndp_options_at_ok k v : wf v -> getter_ok v (ndp_options_at k).
 Proof.
   intros W. unfold getter_ok, ndp_options_at. unfold wf in W.
   destruct (Nat.leb_spec (len v) k).
-  - split; [apply safe_Ok | inside_tac].
+  - split; [apply safe_Ok | cbn [inside]; rewrite ndp_show_norange by reflexivity; constructor].
   - rewrite slfrom_ok by lia. cbn [bind].
     destruct (ndp_options_ret (S (len v - k)) {| arr := skipn k (arr v); len := len v - k |} 0) as [E|E].
     + unfold wf, cap. cbn [arr len]. rewrite skipn_length. unfold cap in W. lia.
     + lia.
     + cbn [len]. lia.
-    + cbn [len] in *. rewrite E. split; [apply safe_Ok | inside_tac].
-    + cbn [len] in *. rewrite E. split; [apply safe_Ok | inside_tac].
+    + cbn [len] in *. rewrite E. cbn [bind]. split; [apply safe_Ok | cbn [inside]; rewrite ndp_value_norange; constructor].
+    + cbn [len] in *. rewrite E. cbn [bind]. split; [apply safe_Ok | inside_tac].
 Qed.
 
 (* ---------------- RA ---------------- *)
